@@ -3,14 +3,14 @@
  "property": "C16",
  "standin": "B-seed",
  "bound": "fixed list of 39 (quick) / 48 (thorough) set / frozenset / dict / Enum values, each rendered by code_repr and _value_to_code in separate interpreters with PYTHONHASHSEED 0..3 (quick) / 0..7 (thorough) x {black, black import blocked, format_command=cat}; 6 extra construction orders per top-level set; dict insertion order (F15) not varied",
- "input": "{\"t\": ({\"m\", \"n\", \"o\", \"l\"},)}",
- "detail": "code_repr text differs between hash seeds: PYTHONHASHSEED=[0]: \"{'t': ({'m', 'l', 'n', 'o'},)}\"; PYTHONHASHSEED=[1]: \"{'t': ({'l', 'n', 'o', 'm'},)}\"; PYTHONHASHSEED=[2]: \"{'t': ({'o', 'l', 'm', 'n'},)}\"; PYTHONHASHSEED=[3]: \"{'t': ({'l', 'n', 'm', 'o'},)}\""
+ "input": "{\"k\": {frozenset({\"m\"}), frozenset({\"n\"}), frozenset({\"o\"}), frozenset({\"p\"})}}",
+ "detail": "[incomparable elements without TypeError: frozenset / frozenset] code_repr text differs between hash seeds: PYTHONHASHSEED=[0]: \"{'k': {frozenset({'p'}), frozenset({'o'}), frozenset({'m'}), frozenset({'n'})}}\"; PYTHONHASHSEED=[1]: \"{'k': {frozenset({'o'}), frozenset({'p'}), frozenset({'n'}), frozenset({'m'})}}\"; PYTHONHASHSEED=[2]: \"{'k': {frozenset({'p'}), frozenset({'n'}), frozenset({'o'}), frozenset({'m'})}}\"; PYTHONHASHSEED=[3]: \"{'k': {frozenset({'m'}), frozenset({'o'}), frozenset({'p'}), frozenset({'n'})}}\""
 }
 """
 
 # run with: /verif/.venv/bin/python <this file>      (inline_snapshot is the editable install of /repo)
 import os, subprocess, sys
-EXPR = '{"t": ({"m", "n", "o", "l"},)}'
+EXPR = '{"k": {frozenset({"m"}), frozenset({"n"}), frozenset({"o"}), frozenset({"p"})}}'
 CHILD = 'from enum import Enum, Flag, IntEnum\nclass Color(Enum):\n    RED = "r"\n    GREEN = "g"\n    BLUE = "b"\nclass Size(IntEnum):\n    S = 1\n    M = 2\n    L = 3\nclass Perm(Flag):\n    R = 4\n    W = 2\n    X = 1\n' + """
 import sys
 from inline_snapshot._code_repr import code_repr
